@@ -96,7 +96,10 @@ def run_component(case):
     text = "a" * p + w + "b" * s
     ev = Event()
     fails = []
-    if where == "value":
+    if where.startswith("named:"):
+        # a short property name followed by p repetitions of the unit w: few characters, possibly many octets
+        ev.add(where[6:], w * p)
+    elif where == "value":
         ev.add("x-long", text)
     elif where == "param":
         if "\r" in w or "\t" in w:
@@ -153,7 +156,7 @@ def run(ctx):
     ctx.rule = ("E-enum over width alphabet W={a,e-acute(2 octets),euro(3),emoji(4),SP,TAB,CR,U+0301,U+3099}: (i) all lines a^p.w.b^s, "
                 f"p in 0..160, w in W^<={j}, s in {TAILS_Q}; (ii) all periodic lines a^p.(w)^r, w in W^1..{m}, p in 0..3, "
                 f">=165 octets; (iii) a^p.w.b^s (w in W^<={jc}) as property value, parameter value and ALTREP+DESCRIPTION "
-                "of an event inside a calendar; (iv)/(v) the same shapes with words over W + {U+FEFF, U+2028, VT, U+0085, NUL, FS} containing at least one of these. non-trivial = the line was actually folded.")
+                "of an event inside a calendar; (vi) short property names x k repetitions (k <= 40/80) of one character or a two-character unit of every width through the component path; (iv)/(v) the same shapes with words over W + {U+FEFF, U+2028, VT, U+0085, NUL, FS} containing at least one of these. non-trivial = the line was actually folded.")
     ctx.bounds = {"alphabet": [repr(c) for c in W], "prefix_len": "0..160", "w_len_i": j, "w_len_ii": m,
                   "tails": list(TAILS_Q), "limit": LIMIT}
     ctx.assumptions += ["lines contain no LF (the library asserts this; statement quantifies over lines without LF)",
@@ -200,5 +203,15 @@ def run(ctx):
     ctx.explore("i:prefix-word-tail", gen_i, run_line)
     ctx.explore("ii:periodic", gen_ii, run_line)
     ctx.explore("iii:component", gen_iii, run_component)
+    def gen_short():
+        units = list(W) + ["\U0001F600a", "a\U0001F600", "\U0001F600\u20ac", "\u00e9\U0001F600"]
+        for name in ("x-a", "uid", "summary", "comment", "x-longer-property-name"):
+            for unit in units:
+                if unit in ("\r", "\t", " "):
+                    continue
+                for k in range(0, 41 if ctx.quick else 81):
+                    yield ("comp", "named:" + name, k, unit, 0)
+
+    ctx.explore("vi:short-names-x-homogeneous-values", gen_short, run_component)
     ctx.explore("iv:special-characters", gen_x, run_line)
     ctx.explore("v:special-characters-in-components", gen_xc, run_component)
